@@ -533,6 +533,28 @@ class Engine:
             st.env[target.id] = v
             return [('next', st)]
         if isinstance(target, (ast.Tuple, ast.List)):
+            stars = [i for i, t in enumerate(target.elts) if isinstance(t, ast.Starred)]
+            if stars:
+                # a, *rest, z = <sequence of statically known length>
+                if len(stars) > 1 or not (v.k in ('tuple', 'list') and v.items is not None):
+                    raise Unsupported(target, 'starred assignment target over %r' % (v,))
+                k, n = stars[0], len(target.elts)
+                if len(v.items) < n - 1:
+                    return [('raise', st, self.make_exc('ValueError', node=target))]
+                tail = n - 1 - k
+                mid = v.items[k:len(v.items) - tail]
+                items = list(v.items[:k]) + [vlist(list(mid))] + list(v.items[len(v.items) - tail:] if tail else [])
+                elts = [t.value if isinstance(t, ast.Starred) else t for t in target.elts]
+                outs = [('next', st)]
+                for t, it in zip(elts, items):
+                    nxt = []
+                    for o in outs:
+                        if o[0] == 'next':
+                            nxt.extend(self.assign(t, it, o[1]))
+                        else:
+                            nxt.append(o)
+                    outs = nxt
+                return outs
             items = self.unpack(v, len(target.elts), target, st)
             if isinstance(items, Raised):
                 return [('raise', st, items.exc)]
